@@ -107,6 +107,13 @@ META["C10"] = {
     "technique": "bounded symbolic execution of the real Go code (go/ssa -> SMT, z3 5.1) with a fault oracle over every DB-API call and upstream request; faults replayed on real SQLite",
 }
 
+META["C18"] = {
+    "text": "Bounded symbolic execution of the real getGlobalRichList API handler and of the sync side's GetPegNetRateAverages call as two goroutine bodies over one *Pegnetd, with a LOCKSET analysis of every access to the shared cache (struct fields and the maps published through them) along every solver-feasible path: no two conflicting accesses from different goroutines without a common mutex; plus: the handler's answer is identical before and during an open block transaction with pending writes, and handlers never write. Found D12 (unsynchronised cache), confirmed by the Go race detector, repaired by a fix: commit.",
+    "note": "two goroutines, one handler (getRichList uses the same call); schedule-independent lockset criterion instead of interleaving enumeration; Sync.Synced word read and the HTTP stack are outside",
+    "design_ref": "DESIGN.md §7 C18",
+    "technique": "symbolic execution of the real Go code (go/ssa -> SMT) with lockset race analysis over shared state; confirmed natively with go test -race",
+}
+
 NOT_APPLICABLE = {}
 for i in range(1, 21):
     p = "C%02d" % i
